@@ -9,6 +9,7 @@
    paths (given as character strings that are parsed and resolved).
 
    Invariants
+     ImplIsSetOp            the per-field, name-matched procedure yields the set-operation result (ghost G)
      ClosedUnderAncestors   every schema produced keeps the ancestors of its fields
      PathFindsField         the formatted path of every field parses and resolves to exactly that field
      QuoteRoundTrip         ParsePath(FormatPath(names)) = names          (checked once, initial state)
@@ -16,12 +17,13 @@
    Scenario export: every finished tree is printed once (GenPrint).                                *)
 EXTENDS SchemaAlgebraOps, Json
 
-CONSTANTS MaxOps
+CONSTANTS MaxOps, Deviations
 
-VARIABLES tree, phase, W, nops
-vars == <<tree, phase, W, nops>>
+VARIABLES tree, phase, W, nops,
+          G         \* ghost: the same schema computed by the plain set operations on field ids
+vars == <<tree, phase, W, nops, G>>
 
-Init == tree = <<>> /\ phase = "build" /\ W = {} /\ nops = 0
+Init == tree = <<>> /\ phase = "build" /\ W = {} /\ nops = 0 /\ G = {}
 
 Last(t) == Len(t)
 OkToAdd(t, p, n, k) ==
@@ -42,21 +44,26 @@ AddNode == /\ phase = "build"
            /\ \E p \in 0 .. Len(tree), n \in 1 .. 5, k \in Kinds :
                 /\ OkToAdd(tree, p, n, k)
                 /\ tree' = Append(tree, [p |-> p, n |-> n, k |-> k])
-           /\ UNCHANGED <<phase, W, nops>>
+           /\ UNCHANGED <<phase, W, nops, G>>
 Finish == /\ phase = "build" /\ tree # <<>> /\ WellFormed(tree)
-          /\ phase' = "ops" /\ W' = Nodes(tree) /\ UNCHANGED <<tree, nops>>
+          /\ phase' = "ops" /\ W' = Nodes(tree) /\ G' = Nodes(tree) /\ UNCHANGED <<tree, nops>>
 
-Step(X) == /\ phase = "ops" /\ nops < MaxOps /\ nops' = nops + 1 /\ W' = X /\ UNCHANGED <<tree, phase>>
-DoExclude   == \E B \in Operands(tree) : Step(ExcludeSem(tree, W, B))
-DoIntersect == \E B \in Operands(tree) : Step(IntersectSem(tree, W, B))
-DoMerge     == \E B \in Operands(tree) : Step(MergeSem(tree, W, B))
-DoByIds     == \E ids \in SUBSET W, all \in BOOLEAN : Step(ByIdsSem(tree, ids, all) \cap (W \cup UNION {DescOf(tree, i) : i \in ids}))
-DoProject   == \E i \in W : Step(ProjectSem(tree, {Resolve(tree, FieldPath(tree, i))}))
+\* W is computed the way the code works (per top-level field, matched by name), G by the set operation
+Step(X, Y) == /\ phase = "ops" /\ nops < MaxOps /\ nops' = nops + 1 /\ W' = X /\ G' = Y /\ UNCHANGED <<tree, phase>>
+DoExclude   == \E B \in Operands(tree) : Step(ExcludeImpl(tree, W, B, Deviations), ExcludeSem(tree, G, B))
+DoIntersect == \E B \in Operands(tree) : Step(IntersectImpl(tree, W, B, Deviations), IntersectSem(tree, G, B))
+DoMerge     == \E B \in Operands(tree) : Step(MergeImpl(tree, W, B, Deviations), MergeSem(tree, G, B))
+ByIdsOn(S, ids, all) == ByIdsSem(tree, ids, all) \cap (S \cup UNION {DescOf(tree, i) : i \in ids})
+DoByIds     == \E ids \in SUBSET W, all \in BOOLEAN : Step(ByIdsOn(W, ids, all), ByIdsOn(G, ids, all))
+DoProject   == \E i \in W : Step(ProjectImpl(tree, {Resolve(tree, FieldPath(tree, i))}, Deviations),
+                                  ProjectSem(tree, {i}))
 
 Next == AddNode \/ Finish \/ DoExclude \/ DoIntersect \/ DoMerge \/ DoByIds \/ DoProject
 Spec == Init /\ [][Next]_vars
 
 TypeOK == phase \in {"build", "ops"} /\ W \subseteq Nodes(tree)
+\* C43: the operations behave as the set operations on field ids
+ImplIsSetOp == W = G
 ClosedUnderAncestors == phase = "ops" => Up(tree, W) = W
 PathFindsField == (phase = "ops" /\ nops = 0) =>
    \A i \in Nodes(tree) : /\ Resolve(tree, FieldPath(tree, i)) = i
